@@ -108,3 +108,14 @@ Theorem gen_tie_GetResults_ctx_loop : forall pid ctx md provs mds (acc : list vi
   = FFall (acc ++ map view_of (expand pid ctx md provs mds 0))%list.
 Proof. exact GenTie_C17.tie_GetResults_ctx_loop. Qed.
 Print Assumptions gen_tie_GetResults_ctx_loop.
+
+(* A history of lookups on one cached record: whatever lookups (other context IDs, other
+   metadata) came before or come after, the answer to a lookup is the specified expansion of
+   the record for THAT lookup's arguments.  (The code must therefore leave the cached record
+   untouched: the correspondence runs call histories on one cache and compares the source's
+   record before and after.) *)
+Theorem getresults_history_independent : forall r pid pre ctx md post,
+  nth_error (run_calls r pid (pre ++ (ctx, md) :: post)) (List.length pre)
+  = Some (Ok (spec_results r pid ctx md)).
+Proof. exact getresults_history_independent_l. Qed.
+Print Assumptions getresults_history_independent.
